@@ -8,7 +8,7 @@ package morton
 //@   mode bv
 //@   prelude morton
 //@   loop i unroll 5
-//@   ensures[C17] ok == (x <= 0xFFFFFFFF && y <= 0xFFFFFFFF)
+//@   ensures[C17,C06,C09] ok == (x <= 0xFFFFFFFF && y <= 0xFFFFFFFF)
 //@   ensures[C17] ok ==> z == interleave(x, y)
 //@
 //@ func FromZ
